@@ -8,10 +8,11 @@ import re
 from ..cfg import Node, must_edges, walk_no_nested
 from ..constfold import Folder, RegexConst, Unknown
 from ..dataflow import bind_call, chain_key, fmt_origin, origins
+from ..decide import expand_expr
 from ..loader import AnalysisError, ClassInfo, ConstInfo, FuncInfo
 from ..regexlang import sre_parse
 from ..report import Ctx
-from .common import all_guards, call_name, direct_guards, exclusive_helpers, norm, reachable_functions, where
+from .common import all_guards, call_name, direct_guards, exclusive_helpers, guard_atoms, norm, reachable_functions, where
 from .render import get_model
 
 TRANSFORM_MODULES = ("flowmark.transforms.doc_transforms", "flowmark.transforms.doc_cleanups")
@@ -29,13 +30,15 @@ def _isinstance_tests(ctx: Ctx, fi: FuncInfo, node: Node) -> list[tuple[str, lis
     """(object text, [class dotted names], label) of isinstance tests on all per-path guards of a node."""
     prog = ctx.prog
     out = []
-    for b, lab in all_guards(prog, fi, node):
-        if b.kind != "test":
-            continue
-        for c in walk_no_nested(b.ast):
-            if isinstance(c, ast.Call) and isinstance(c.func, ast.Name) and c.func.id == "isinstance" and len(c.args) == 2:
-                neg = False
-                out.append((norm(c.args[0]), _class_names(ctx, fi, c.args[1]), lab if not neg else {"T": "F", "F": "T"}[lab]))
+    for a, truth, _b in guard_atoms(prog, fi, node):
+        if isinstance(a, ast.Call) and isinstance(a.func, ast.Name) and a.func.id == "isinstance" and len(a.args) == 2:
+            out.append((norm(a.args[0]), _class_names(ctx, fi, a.args[1]), "T" if truth else "F"))
+        elif not truth:
+            # a conjunction known to be false: its isinstance parts are reported as "F" (not known individually) for the
+            # consumers that list the tests; none of them draws a conclusion from an "F"
+            for c in walk_no_nested(a):
+                if isinstance(c, ast.Call) and isinstance(c.func, ast.Name) and c.func.id == "isinstance" and len(c.args) == 2:
+                    out.append((norm(c.args[0]), _class_names(ctx, fi, c.args[1]), "F"))
     return out
 
 
@@ -192,10 +195,25 @@ def _segments_nodes_are_rawtext(ctx: Ctx, report: bool = False) -> bool:
     flow = prog.flow(cs)
     ok_all = True
     n = 0
-    for node, c in flow.all_calls():
-        if isinstance(c.func, ast.Attribute) and c.func.attr == "append" and c.args and isinstance(c.args[0], ast.Tuple) and len(c.args[0].elts) == 2:
+    # where a (text, node-or-None) segment is produced: segments.append((t, n)), return [(t, n)], yield (t, n)
+    sites: list[tuple[Node, ast.Tuple]] = []
+    for node in flow.cfg.nodes:
+        for ex in flow.node_exprs(node):
+            for sub in walk_no_nested(ex):
+                tup: list[ast.AST] = []
+                if isinstance(sub, ast.Call) and isinstance(sub.func, ast.Attribute) and sub.func.attr == "append" and len(sub.args) == 1:
+                    tup = [sub.args[0]]
+                elif isinstance(sub, (ast.Yield,)) and sub.value is not None:
+                    tup = [sub.value]
+                elif isinstance(sub, ast.List) and node.kind == "stmt" and isinstance(node.ast, ast.Return) and sub is node.ast.value:
+                    tup = list(sub.elts)
+                for t in tup:
+                    if isinstance(t, ast.Tuple) and len(t.elts) == 2:
+                        sites.append((node, t))
+    for node, c in sites:
+        if True:
             n += 1
-            second = c.args[0].elts[1]
+            second = c.elts[1]
             if isinstance(second, ast.Constant) and second.value is None:
                 ok = True
                 why = "immutable segment (None)"
@@ -219,6 +237,28 @@ def _segments_nodes_are_rawtext(ctx: Ctx, report: bool = False) -> bool:
             ok = all(o[0] == "iter" and _mentions_children(o) for o in org) and bool(org)
             ctx.ob("R-REWRITE-segments", f"{cs.qual} :: recursion over children", ok,
                    "recursion must range over the element's own children, in order", where(cs, c))
+        # mutual recursion through a helper that loops over a list: cs -> helper(children) -> cs(child)
+        for nn, c in flow.all_calls():
+            t = prog.resolve_call(cs, c)
+            if isinstance(t, list) and len(t) == 1 and t[0] is not cs and not isinstance(t[0].node, ast.Lambda):
+                h = t[0]
+                hflow = prog.flow(h)
+                back = [(hn, hc) for hn, hc in hflow.all_calls() if prog.resolve_call(h, hc) == [cs]]
+                if not back:
+                    continue
+                b = bind_call(h, c)
+                ok = True
+                for hn, hc in back:
+                    horg = origins(prog, h, hc.args[0], hn) if hc.args else frozenset()
+                    # the helper hands each element of one of its parameters to the collector ...
+                    ps = {o[1][1] for o in horg if o[0] == "iter" and isinstance(o[1], tuple) and o[1][0] == "param"}
+                    ok = ok and bool(horg) and len(ps) == 1 and all(o[0] == "iter" for o in horg)
+                    # ... and that parameter is bound to the element's children
+                    for pn in ps:
+                        aorg = origins(prog, cs, b.get(pn), nn) if b.get(pn) is not None else frozenset()
+                        ok = ok and bool(aorg) and all(_mentions_children(o) for o in aorg)
+                ctx.ob("R-REWRITE-segments", f"{cs.qual} :: recursion over children", ok,
+                       "recursion must range over the element's own children, in order", where(cs, c))
     return ok_all
 
 
@@ -598,23 +638,41 @@ def check_writeback(ctx: Ctx) -> None:
                "the mapping back into nodes slices the converted text by the original segment lengths; it is only meaningful if "
                "len(converted) == len(composite) is asserted on every path before it", where(tr, s))
         v = s.ast.value
-        ok = isinstance(v, ast.Subscript) and isinstance(v.slice, ast.Slice) and v.slice.lower is not None and v.slice.upper is not None \
-            and norm(v.slice.upper) == f"{norm(v.slice.lower)} + segment_len" or (
-                isinstance(v, ast.Subscript) and isinstance(v.slice, ast.Slice) and isinstance(v.slice.upper, ast.BinOp)
-                and norm(v.slice.upper.left) == norm(v.slice.lower))
+        heads = [h for h in flow.cfg.nodes if h.kind == "for" and s in flow.loop_body_nodes(h)]
+        head = min(heads, key=lambda h: len(flow.loop_body_nodes(h))) if heads else None
+        text_var = None
+        if head is not None and isinstance(head.ast.target, ast.Tuple) and head.ast.target.elts and isinstance(head.ast.target.elts[0], ast.Name):
+            text_var = head.ast.target.elts[0].id
+        ok = False
+        cursor = None
+        if isinstance(v, ast.Subscript) and isinstance(v.slice, ast.Slice) and v.slice.lower is not None and v.slice.upper is not None \
+                and v.slice.step is None and isinstance(v.slice.lower, ast.Name) and text_var is not None:
+            cursor = v.slice.lower.id
+            up = norm(expand_expr(prog, tr, v.slice.upper, s))
+            ok = up in (f"{cursor} + len({text_var})", f"len({text_var}) + {cursor}")
         ctx.ob("R-SUBSHAPE-writeback", f"{tr.qual} :: slice [pos : pos + len(segment)]", bool(ok),
                "each node gets exactly its own stretch of the converted text", where(tr, s))
-    # pos advances by the segment length for every segment, mutable or not
-    loops = [h for h in flow.cfg.nodes if h.kind == "for" and stores and stores[0] in flow.loop_body_nodes(h)]
-    for h in loops:
-        adv = [n for n in flow.loop_body_nodes(h) if n.kind == "stmt" and isinstance(n.ast, ast.AugAssign) and isinstance(n.ast.op, ast.Add)]
-        ok = False
-        for a in adv:
-            edges = {(b, lab) for b, lab in (must_edges(flow.cfg, h, a) or set()) if b is not h}
-            if not edges:
-                ok = True
-        ctx.ob("R-SUBSHAPE-writeback", f"{tr.qual} :: cursor advances for every segment", ok,
-               "the position must advance by the segment length unconditionally (immutable segments too)", where(tr, h))
+        # the cursor advances by the segment length for every segment, mutable or not
+        if head is not None and cursor is not None:
+            okc = False
+            for a in flow.loop_body_nodes(head):
+                if a.kind != "stmt":
+                    continue
+                step = None
+                if isinstance(a.ast, ast.AugAssign) and isinstance(a.ast.op, ast.Add) and isinstance(a.ast.target, ast.Name) and a.ast.target.id == cursor:
+                    step = norm(expand_expr(prog, tr, a.ast.value, a))
+                elif isinstance(a.ast, ast.Assign) and len(a.ast.targets) == 1 and isinstance(a.ast.targets[0], ast.Name) and a.ast.targets[0].id == cursor:
+                    full = norm(expand_expr(prog, tr, a.ast.value, a))
+                    for pre_, suf_ in ((f"{cursor} + ", ""), ("", f" + {cursor}")):
+                        if full.startswith(pre_) and full.endswith(suf_) and len(full) > len(pre_) + len(suf_):
+                            step = full[len(pre_):len(full) - len(suf_)]
+                            break
+                if step == f"len({text_var})":
+                    edges = {(b, lab) for b, lab in (must_edges(flow.cfg, head, a) or set()) if b is not head}
+                    if not edges:
+                        okc = True
+            ctx.ob("R-SUBSHAPE-writeback", f"{tr.qual} :: cursor advances for every segment", okc,
+                   "the position must advance by the segment length unconditionally (immutable segments too)", where(tr, head))
     # the composite is the concatenation of the segment texts in order, and the scope is one element
     comp = [n for n in flow.cfg.nodes if n.kind == "stmt" and isinstance(n.ast, ast.Assign) and isinstance(n.ast.value, ast.Call)
             and isinstance(n.ast.value.func, ast.Attribute) and n.ast.value.func.attr == "join"]
